@@ -17,7 +17,7 @@ def palette(rng):
         anchors.append(cm.TOKENS[rng.choice(TOKS)])
     pal = []
     for a in anchors:
-        for d in (0, 0, 1, -1, 2, -2):
+        for d in (0, 0, 1, -1, 2, -2, 3, -3, 4):          # wide enough for two 3-character ranges with a one-character gap
             c = ord(a) + d
             if 0 <= c <= 0x10FFFF:
                 pal.append(chr(c))
@@ -300,6 +300,15 @@ def systematic_algebra():
                 ["sub", ["AnyBetween", s_, p1], ["chr", p1]], ["sub", ["AnyBetween", s_, p2], ["AnyFrom", s_, p2]],
                 ["or", ["AnyButFrom", s_], ["AnyButBetween", m2, m1]], ["sub", ["AnyButBetween", m2, p2], ["AnyButFrom", s_]],
                 ["sub", ["chr", s_], ["AnyFrom", s_, p1]], ["sub", ["AnyFrom", s_], ["chr", s_]]]
+    # gap geometry: two ranges of three characters separated by one / two characters, unioned and subtracted
+    for s_ in SPECIALS:
+        q = [_nb(s_, d) for d in (-3, -1, 1, 3, 2, 4)]
+        if None in q:
+            continue
+        lo, g1, g2, g2b = ["AnyBetween", q[0], q[1]], ["AnyBetween", q[2], q[3]], ["AnyBetween", q[4], q[5]], None
+        out += [["or", lo, g1], ["or", g1, lo], ["or", lo, g2], ["sub", ["AnyBetween", q[0], q[5]], ["chr", s_]],
+                ["sub", ["or", lo, g1], ["AnyFrom", q[1], q[2]]], ["sub", ["AnyFrom", q[1], q[3], s_], g1],
+                ["sub", ["AnyFrom", q[0], q[1], q[2]], lo], ["or", ["AnyFrom", s_], ["or", lo, g1]]]
     # every pairing of operand kinds under | and -, in both orders: the exception paths and the Any / global-word rules
     kinds = [["Any"], ["named", "AnyDigit"], ["AnyFrom", "a", "5"], ["named", "AnyButDigit"], ["AnyButFrom", "a", "5"],
              ["named", "AnyWordChar", True], ["named", "AnyButWordChar", True], ["chr", "5"], ["tok", "Newline"], ["lit", "5"],
